@@ -118,7 +118,7 @@ def main():
         },
         "engines": [{"name": "wsim", "path": "/verif/sim", "serves_properties": sorted(CHECKS), "kind_free_text": "deterministic simulator: DES kernel with parked OS threads + virtual clock + scripted stdin/stdout (S-A), scripted-expiry clock around get_best_move (S-B), state-machine walks vs referee (S-C)"}],
         "checks": checks,
-        "notes": "See DESIGN.md. Exit 2 from a check is a harness error, never a verdict. known_findings.json lists recorded and fixed defects. bin/check runs each check with the harness in the release profile and, for C04 C09 C10 C15 C17 (both tiers) and every check (thorough tier), a second time built with overflow checks and debug assertions (DESIGN.md section 10, Two arithmetics); both passes write into the same evidence file.",
+        "notes": "See DESIGN.md. Exit 2 from a check is a harness error, never a verdict. known_findings.json lists recorded and fixed defects. bin/check runs each check with the harness in the release profile and, for C04 C09 C10 C15 C17 (both tiers) and every check (thorough tier), a second time built with overflow checks and debug assertions (DESIGN.md section 10, Two arithmetics); both passes write into the same evidence file. When the harness does not build against the tree because engine::get_best_move changed its signature, bin/check falls back to a build without the S-B scenario family: session checks run, S-B checks exit 2.",
         "not_applicable": na,
     }
     json.dump(m, open(os.path.join(HERE, "MANIFEST.json"), "w"), indent=1)
